@@ -928,6 +928,9 @@ class FragmentReceiver(object):
         if 1 <= index <= len(self.fragments):
             if self.fragments[index-1] is None:
                 self.fragments[index-1] = fragment
+                # the message is still making progress: restart the
+                # expiration timer from the last received fragment
+                self.ctime = self.conn.clock()
 
         if index == 1:
             self.msgseq = msgseq
